@@ -40,6 +40,9 @@ fn main() {
             std::process::exit(2)
         });
         let prop = v["property"].as_str().unwrap_or("").to_string();
+        if matches!(prop.as_str(), "C01" | "C03") {
+            common::shim::ensure_loaded_or_reexec();
+        }
         let ctx = Ctx::new(&prop, Tier::Quick);
         watchdog(1800);
         let code = props::REGISTRY.iter().find(|e| e.id == prop).and_then(|e| (e.replay)(&ctx, &v));
@@ -61,6 +64,9 @@ fn main() {
             std::process::exit(2)
         }
     };
+    if matches!(prop.as_str(), "C01" | "C03") {
+        common::shim::ensure_loaded_or_reexec();
+    }
     watchdog(tier.pick(1500, 6 * 3600));
     let ctx = Ctx::new(&prop, tier);
     let Some(entry) = props::REGISTRY.iter().find(|e| e.id == prop) else {
